@@ -425,6 +425,32 @@ def nested_index(sx, cfg):
                   sx.Implies(sx.Not(first0), sx.And(sx.eq(a, V1), sx.eq(b, V0))))
 
 
+@harness('C03', params=['strict', 'strict+soft', 'default'],
+         functions=['spyne.protocol.dictdoc.simple.SimpleDictDocument.simple_dict_to_object',
+                    'spyne.protocol.dictdoc.simple._index_aware_key'],
+         bounds={'doc': 'three keys groups[0].items[j].v whose inner indexes are a permutation of 0, 1, 2 in any pair order '
+                        '(symbolic digits), symbolic one-digit values; strict_arrays on (contiguous indexes are conformant) and off'})
+def nested_index_any_order(sx, cfg):
+    """an array inside the elements of another array: whatever the order of the pairs, the items arrive in index order -
+    also under strict_arrays, where the contiguous indexes 0, 1, 2 are conformant however they are permuted"""
+    prot = PROTS[cfg]
+    js = [sx.digits('j%d' % k, 1) for k in range(3)]
+    J = [sx.digits_value(t) for t in js]
+    vs = [sx.digits('v%d' % k, 1) for k in range(3)]
+    sx.assume(sx.And(J[0] <= 2, J[1] <= 2, J[2] <= 2, sx.Not(J[0] == J[1]), sx.Not(J[0] == J[2]), sx.Not(J[1] == J[2])))
+    doc = sx.mkdict([('groups[0].items[' + js[k] + '].v', [vs[k]]) for k in range(3)])
+    out = prot.simple_dict_to_object(CTX, doc, Outer3, prot.validator)
+    gs = out.groups
+    if gs is None or len(gs) != 1 or gs[0].items is None or len(gs[0].items) != 3:
+        return False
+    its = gs[0].items
+    ok = []
+    for k in range(3):
+        for pos in range(3):
+            ok.append(sx.Implies(J[k] == pos, sx.eq(its[pos].v, sx.digits_value(vs[k]))))
+    return sx.And(*ok)
+
+
 def _eater(prot, v, t):
     return [prot.to_unicode(t, v)]
 
@@ -585,3 +611,62 @@ def response_header_values(sx, tzkind):
     want = (v.hour * 60 + v.minute - off) % 1440
     ok += [shape, sx.eq(hh * 60 + mm, want), sx.eq(ss, v.second)]
     return sx.And(*ok)
+
+
+# ---------------------------------------------------------------- a single primitive return value, every body style
+RETV = {}
+
+
+class _StyleSvc(Service):
+    @rpc(Integer, _returns=Integer)
+    def wrapped(ctx, a):
+        RETV['args'] = (a,)
+        return RETV['v']
+
+    @rpc(Integer, Integer, _returns=Integer, _body_style='out_bare')
+    def out_bare(ctx, a, b):
+        RETV['args'] = (a, b)
+        return RETV['v']
+
+    @rpc(_returns=Integer, _body_style='bare')
+    def bare_noargs(ctx):
+        RETV['args'] = ()
+        return RETV['v']
+
+    @rpc(_returns=Unicode, _body_style='out_bare')
+    def text_noargs(ctx):
+        RETV['args'] = ()
+        return RETV['s']
+
+
+_STYLE_APP = Application([_StyleSvc], 'tns', in_protocol=HttpRpc(), out_protocol=HttpRpc())
+_STYLE_REQ = {'wrapped': ('/wrapped', 'a=4', (4,)), 'out_bare': ('/out_bare', 'a=4&b=5', (4, 5)),
+              'bare_noargs': ('/bare_noargs', '', ()), 'text_noargs': ('/text_noargs', '', ())}
+
+
+@harness('C03', params=sorted(_STYLE_REQ), functions=['spyne.protocol.http.HttpRpc.serialize', 'spyne.protocol.http.HttpRpc._handle_rpc_nonempty',
+                                                     'spyne.protocol._outbase.OutProtocolBase.to_bytes_iterable'],
+         bounds={'methods': 'wrapped, out_bare with two arguments, bare without arguments, out_bare returning text; the return value '
+                            'any integer |v| <= 10^12 / any string of 0..2 characters; GET through WsgiApplication'})
+def response_body_styles(sx, m):
+    """whatever the body style of the method, its single primitive return value is the response body: exactly its text,
+    status 200, and the arguments arrive"""
+    import io
+    from spyne.server.wsgi import WsgiApplication
+    path, qs, want_args = _STYLE_REQ[m]
+    RETV.clear()
+    RETV['v'] = v = sx.int('v', -10 ** 12, 10 ** 12)
+    n = sx.choose('slen', [0, 1, 2])
+    RETV['s'] = s = sx.text('s', n, lo=0x20, hi=0x7e) if n else u''
+    environ = {'REQUEST_METHOD': 'GET', 'PATH_INFO': path, 'QUERY_STRING': qs, 'SERVER_NAME': 'localhost', 'SERVER_PORT': '80',
+               'wsgi.url_scheme': 'http', 'wsgi.input': io.BytesIO(b''), 'CONTENT_TYPE': 'text/plain'}
+    status = []
+    chunks = list(WsgiApplication(_STYLE_APP)(environ, lambda st, h, e=None: status.append(st)))
+    sx.observe('status', status)
+    if not status or not status[0].startswith('200') or RETV.get('args') != want_args:
+        return False
+    body = b''
+    for c in chunks:
+        body = body + c
+    want = s.encode('utf8') if m == 'text_noargs' else sx.render(v).encode('utf8')
+    return sx.eq(body, want)
